@@ -29,9 +29,9 @@ CLAIMED = {
     engine="driver-ai"),
  "C13": dict(
     category="other",
-    text="Abstract interpretation of all 30 public entry points per parameter set on arbitrary inputs (each key consumer composed with every key producer: deserialised arbitrary bytes, generated, derived). Every Assert terminator, panicking call and modelled std precondition reachable is an obligation; all are discharged except the 13 individually named obligations of rules/assume.json (counting / quantified-array / inverse-transform facts outside the domains, each with its lemma). In addition try_from_bytes -> into_bytes (both key kinds) is analysed as ONE composition with symbolic coefficients (linear forms modulo q through the transforms): there the skEncode / BitPack range self-checks are decided rather than assumed, so an accepted key that panics on re-serialisation is reported. Not a full proof because of the remaining assumptions; sound for everything else.",
+    text="Abstract interpretation of all 30 public entry points per parameter set on arbitrary inputs (each key consumer composed with every key producer: deserialised arbitrary bytes, generated, derived). Every Assert terminator, panicking call and modelled std precondition reachable is an obligation; all are discharged except the 11 individually named obligations of rules/assume.json (counting / quantified-array / inverse-transform facts outside the domains, each with its lemma). In addition try_from_bytes -> into_bytes (both key kinds) is analysed as ONE composition with symbolic coefficients (linear forms modulo q through the transforms): there the skEncode / BitPack range self-checks are decided rather than assumed, so an accepted key that panics on re-serialisation is reported. Not a full proof because of the remaining assumptions; sound for everything else.",
     design_ref="DESIGN.md §4 C13, §5, A.6",
-    note="Assumed: rules/assume.json (13 obligations, listed in evidence). Trusted: abstract domains and std models; dependencies do not panic. Quick = ML-DSA-44, thorough = all three sets.",
+    note="Assumed: rules/assume.json (11 obligations, listed in evidence). Trusted: abstract domains and std models; dependencies do not panic. Quick = ML-DSA-44, thorough = all three sets.",
     technique="abstract interpretation over monomorphic MIR: intervals, linear congruences, affine quotient forms, sign partitioning; obligations = MIR Assert/panic sites",
     engine="driver-ai"),
  "C18": dict(
